@@ -168,8 +168,9 @@ Value& MemberCONCATExpression::value(Context& ctx) const
     }
     else
     {
-      /* type mixing */
-      switch (rv_type.major())
+      /* type mixing: numbers are converted only for a one-dimensional table,
+       * for nested tables the element is a table and only null is mixable */
+      switch (rv_type.level() > 1 ? Type::NO_TYPE : rv_type.major())
       {
       case Type::INTEGER:
         if (a0_type == Type::NUMERIC)
